@@ -140,10 +140,15 @@ def structural_signature_key(repo):
             tgts = n.targets if isinstance(n, ast.Assign) else [n.target] if isinstance(n, (ast.AugAssign, ast.AnnAssign, ast.NamedExpr)) else []
             for t in tgts:
                 n_assign += sum(1 for e in ast.walk(t) if isinstance(e, ast.Name) and e.id == 'before_bracket')
+    guard_new = 'if module_path is None or before_bracket is None: yield None' in s3
+    guard_old = 'if module_path is None: yield None' in s3
     ok3 = cs is not None and n_assign == 1 and 'before_bracket = re.match(' in s3 and ', whole, re.DOTALL)' in s3 \
-        and 'if module_path is None: yield None' in s3 \
-        and 'yield (module_path, before_bracket, bracket_leaf.start_pos)' in s3
-    return [{'id': 'signature-key', 'kind': 'post', 'ok': ok3 if cs else None,
-             'label': 'the signature cache key is None for path-less buffers and otherwise contains the re.Match '
-                      'object (compared by identity): a key of one call never equals the key of another, so no '
-                      'stale signature (parameters, positions, line code) can be served'}]
+        and guard_new and 'yield (module_path, before_bracket, bracket_leaf.start_pos)' in s3
+    # recognised violations: the Match object replaced by something comparable (assigned twice), or a key that is
+    # built although there was no match (None compares equal across buffer versions)
+    definite = cs is not None and (n_assign > 1 or (guard_old and not guard_new))
+    return [{'id': 'signature-key', 'kind': 'post', 'ok': ok3 if cs else None, 'definite': definite,
+             'label': 'the signature cache key is None (no caching) for path-less buffers and when the text before the '
+                      'cursor does not contain the bracket, and otherwise contains the re.Match object (compared by '
+                      'identity): a key of one call never equals the key of another, so no stale signature '
+                      '(parameters, positions, line code) can be served'}]
